@@ -251,13 +251,44 @@ def run(ctx):
             violations.append({"what": "a successful put onto the existing %s (its %s failed once) did not mark the entry as used" % (kp, call),
                                "classification": {"kind": "put-not-marked-under-fault", "call": call, "w": desc["w"]},
                                "replay": {"kind": "history", "env": {}, "fault": [k, "EIO"], "scenario": L}})
+    # the entry lives in its key's ALTERNATE shard and the writer is a fresh handle (its load estimates
+    # say "every shard is empty"): a put onto it is a touch of THAT copy, a set replaces THAT copy
+    ajobs = []
+    wsh = ("sharded", 4, 1200)
+    KEYA = ("kk", 7, 9)
+    for opn in ("put", "set"):
+        alt = G.key_path(wsh, "w", KEYA, 1)
+        L = G.header(wsh, (), "none") + [G.plant(alt, "OLDVALUE", mtime=G.T0 + 10**9, atime=G.T0), "mkdir " + G.key_path(wsh, "w", KEYA, 0).rsplit("/", 1)[0],
+                                         G.NOFIRE, "snap", G.op(0, opn, KEYA, "NEWVALUE", 1), "snap"]
+        ajobs.append(({"op": opn}, L))
+    for desc, lines, impl, model, diffs in S.run_many(ajobs, what=("result", "snap")):
+        if diffs:
+            ties.append({"what": "model and implementation disagree (%s onto an entry living in its alternate shard)" % desc["op"], "case": str(desc), "detail": diffs[:3]})
+        else:
+            agree += 1
+        if impl is None or len(impl.snaps) < 2:
+            continue
+        copies0 = {l.split(" ")[0]: l.split(" ") for l in impl.snaps[0] if l.split(" ")[1] == "f" and l.split(" ")[0].endswith("/" + KEYA[0]) and ".kismet_temp" not in l}
+        copies1 = {l.split(" ")[0]: l.split(" ") for l in impl.snaps[1] if l.split(" ")[1] == "f" and l.split(" ")[0].endswith("/" + KEYA[0]) and ".kismet_temp" not in l}
+        cls, _ = S.fields(impl.results[1][1]) if 1 in impl.results else ("", {})
+        if cls != "OkUnit":
+            continue
+        if len(copies1) != 1:
+            violations.append({"what": "%s onto a key whose entry lives in its alternate shard left %d copies: %s" % (desc["op"], len(copies1), sorted(copies1)),
+                               "classification": {"kind": "second-copy", "op": desc["op"]}, "replay": {"kind": "history", "env": {}, "scenario": lines}})
+            continue
+        (p1, a), = copies1.items()
+        b = copies0.get(p1)
+        if desc["op"] == "put" and (b is None or a[7] != b[7] or a[5] != b[5] or int(a[6]) < int(a[5])):
+            violations.append({"what": "a put onto the existing entry %s (alternate shard, fresh handle) did not just mark it: %s -> %s" % (p1, b, a),
+                               "classification": {"kind": "put-not-a-touch", "op": "put"}, "replay": {"kind": "history", "env": {}, "scenario": lines}})
     seen, uniq = set(), []
     for v in violations:
         k = tuple(sorted(v["classification"].items()))
         if k not in seen:
             seen.add(k); uniq.append(v)
-    cov = {"evaluations": len(res) + len(sched_runs) + len(ores) + len(fjobs), "distinct_nontrivial": nontriv + len(sched_runs), "steps": steps, "real_schedules_explored": len(sched_runs),
-           "rule": "operation sequences (30-60 steps) over 3-5 keys on plain, sharded and stacked front-ends under {kernel default relatime, emulated no-atime} x {native, 1 s, 2 s} timestamp granularity, run back to back so that reads fall in the granule of the insertion: after every step (rank order, read mark, content) of every entry is compared with the model run under the same policy, and the property's oracle is applied to the implementation's snapshots (a read marks and neither reorders nor rewrites, a put onto an existing key likewise, a set / inserting put is newest and unmarked). In addition every single context-switch schedule of {touch, get | set} on one key (real processes, gate mode) is run: the set's value must end up stamped with the time of the set. Also a put onto an existing key with its link / re-stamp / chmod failing once (EIO): a put that still reports success leaves content and queue position alone and marks the entry. Non-trivial = coarse granularity or no-atime, or a real schedule.",
+    cov = {"evaluations": len(res) + len(sched_runs) + len(ores) + len(fjobs) + len(ajobs), "distinct_nontrivial": nontriv + len(sched_runs), "steps": steps, "real_schedules_explored": len(sched_runs),
+           "rule": "operation sequences (30-60 steps) over 3-5 keys on plain, sharded and stacked front-ends under {kernel default relatime, emulated no-atime} x {native, 1 s, 2 s} timestamp granularity, run back to back so that reads fall in the granule of the insertion: after every step (rank order, read mark, content) of every entry is compared with the model run under the same policy, and the property's oracle is applied to the implementation's snapshots (a read marks and neither reorders nor rewrites, a put onto an existing key likewise, a set / inserting put is newest and unmarked). In addition every single context-switch schedule of {touch, get | set} on one key (real processes, gate mode) is run: the set's value must end up stamped with the time of the set. Also a put onto an existing key with its link / re-stamp / chmod failing once (EIO): a put that still reports success leaves content and queue position alone and marks the entry; and a put / set through a fresh handle onto a key whose entry lives in its alternate shard: one copy, the put is a touch of that copy. Non-trivial = coarse granularity or no-atime, or a real schedule.",
            "samples": samples, "traces_validated_against_impl": agree}
     if not ctx.quick():
         rc, o = C.coqchk(PROPS)
